@@ -22,7 +22,6 @@ func newTimeSeries(attack, label string) *timeSeries {
 	return &timeSeries{
 		attack: attack,
 		label:  label,
-		data:   tsz.New(0),
 	}
 }
 
@@ -33,7 +32,14 @@ func (ts *timeSeries) add(t uint64, v float64) error {
 		return errMonotonicTimestamp
 	}
 
-	ts.data.Push(t, v)
+	// tsz stores the first timestamp of a series as a 27 bit offset from the
+	// series' T0 and takes a timestamp of zero to mean "no point yet". Start the
+	// series at its first point and keep stored timestamps above zero, so that a
+	// series may begin any time after the attack did.
+	if ts.data == nil {
+		ts.data = tsz.New(t + 1)
+	}
+	ts.data.Push(t+1, v)
 	ts.prev = t
 	ts.len++
 
@@ -41,13 +47,16 @@ func (ts *timeSeries) add(t uint64, v float64) error {
 }
 
 func (ts *timeSeries) iter() lttb.Iter {
+	if ts.data == nil {
+		return func(int) ([]lttb.Point, error) { return nil, nil }
+	}
 	it := ts.data.Iter()
 	return func(count int) ([]lttb.Point, error) {
 		ps := make([]lttb.Point, 0, count)
 		for i := 0; i < count && it.Next(); i++ {
 			t, v := it.Values()
 			ps = append(ps, lttb.Point{
-				X: time.Duration(t * 1e6).Seconds(),
+				X: time.Duration((t - 1) * 1e6).Seconds(),
 				Y: v,
 			})
 		}
